@@ -168,7 +168,7 @@ fn ul_model(n: u8) -> Underline {
 }
 
 fn attrs(flags: u8, ul: u8) -> FaceAttrs {
-    let mut a: FaceAttrs = ul_style(ul).into();
+    let mut a: FaceAttrs = if ul <= 5 { ul_style(ul).into() } else { FaceAttrs::EMPTY };
     for (bit, f) in [
         (1, FaceAttrs::BOLD),
         (2, FaceAttrs::ITALIC),
@@ -179,6 +179,19 @@ fn attrs(flags: u8, ul: u8) -> FaceAttrs {
         if flags & bit != 0 {
             a = a.insert(f);
         }
+    }
+    // 6 and 7: the two values of the three-bit underline field that are no style, reachable through the public `|=`
+    // and `^=` operators (double |= dotted, curly ^= dotted), applied last; the library reads them as "no underline"
+    match ul {
+        6 => {
+            a |= UnderlineStyle::Double.into();
+            a |= UnderlineStyle::Dotted.into();
+        }
+        7 => {
+            a |= UnderlineStyle::Curly.into();
+            a ^= UnderlineStyle::Dotted.into();
+        }
+        _ => {}
     }
     a
 }
@@ -592,6 +605,20 @@ fn check_ops(spec: &Spec, cfg: &Cfg, ops: &[Op]) -> Result<(), (String, String)>
     }
 }
 
+/// `{:?}` of a command for messages: formatting goes through the library's own `Debug` implementations, which may be
+/// what is broken
+struct Shown(String);
+
+impl std::fmt::Debug for Shown {
+    fn fmt(&self, f: &mut std::fmt::Formatter<'_>) -> std::fmt::Result {
+        f.write_str(&self.0)
+    }
+}
+
+fn shown(spec: &Spec) -> Shown {
+    Shown(catch(|| format!("{:?}", spec.command())).unwrap_or_else(|_| format!("{:?} (formatting the command with Debug panicked)", spec)))
+}
+
 /// Encode with a fresh encoder. Err(kind, detail) on panic / error.
 fn encode_with(enc: &mut TTYEncoder, spec: &Spec, out: &mut Vec<u8>) -> Result<(), (String, String)> {
     let cmd = spec.command();
@@ -811,12 +838,12 @@ struct FaceSpace {
 
 impl FaceSpace {
     fn size(&self) -> u64 {
-        (self.cols.len() * self.cols.len() * 32 * 6) as u64
+        (self.cols.len() * self.cols.len() * 32 * 8) as u64
     }
     fn get(&self, mut i: u64) -> Spec {
         let n = self.cols.len() as u64;
-        let ul = (i % 6) as u8;
-        i /= 6;
+        let ul = (i % 8) as u8;
+        i /= 8;
         let flags = (i % 32) as u8;
         i /= 32;
         let bg = self.cols[(i % n) as usize];
@@ -995,7 +1022,7 @@ fn run_case(spec: &Spec, cfg: &Cfg, index: u64, viol: &Violations, samples: &Sam
     if let Err((kind, detail)) = &out.verdict {
         viol.add(
             format!("{}:{}", spec.name(), kind),
-            format!("{:?} under {:?} emitted {:?}: {}", spec.command(), cfg, esc(&out.bytes), detail),
+            format!("{:?} under {:?} emitted {:?}: {}", shown(spec), cfg, esc(&out.bytes), detail),
             json!({"kind": "single", "cmd": spec, "cfg": cfg}),
         );
     }
@@ -1087,7 +1114,7 @@ fn sweep_after_failed_write(viol: &Violations, cfgs: &[Cfg]) -> u64 {
             if !matches!(res, Ok(Ok(()))) || sink.0 != whole {
                 viol.add(
                     format!("short-writing-sink:{}:differs", first.name()),
-                    format!("{:?} encoded into a sink that takes one byte per call delivered {:?}, into a Vec {:?} ({:?})", first.command(), esc(&sink.0), esc(&whole), cfg),
+                    format!("{:?} encoded into a sink that takes one byte per call delivered {:?}, into a Vec {:?} ({:?})", shown(first), esc(&sink.0), esc(&whole), cfg),
                     json!({"kind": "single", "cmd": first, "cfg": cfg}),
                 );
             }
@@ -1109,7 +1136,7 @@ fn sweep_after_failed_write(viol: &Violations, cfgs: &[Cfg]) -> u64 {
                         format!("after-failed-write:{}:differs", second.name()),
                         format!(
                             "{:?} failed in the writer after {k} of {} bytes; then {:?} on the same encoder emitted {:?}, a fresh encoder emits {:?} ({:?})",
-                            first.command(), whole.len(), second.command(), esc(&after), esc(&fresh), cfg
+                            shown(first), whole.len(), shown(second), esc(&after), esc(&fresh), cfg
                         ),
                         json!({"kind": "after-failed-write", "first": first, "k": k, "second": second, "cfg": cfg}),
                     );
@@ -1342,7 +1369,7 @@ pub fn run(ctx: &Ctx) -> Result<Report, String> {
         if let Err((culprit, kind, detail)) = eval_pair(a, b, cfg) {
             viol.add(
                 format!("pair:{}:{}", culprit, kind),
-                format!("{:?} then {:?} under {:?}: {}", a.command(), b.command(), cfg, detail),
+                format!("{:?} then {:?} under {:?}: {}", shown(a), shown(b), cfg, detail),
                 json!({"kind": "pair", "a": a, "b": b, "cfg": cfg}),
             );
         }
@@ -1421,7 +1448,7 @@ pub fn replay(w: &Value) -> Result<(bool, String), String> {
             let out = eval(&spec, &cfg);
             let head = format!(
                 "command  {:?}\nconfig   {:?}\nbytes    {:?}\nexpected {}\nobserved {:?}",
-                spec.command(),
+                shown(&spec),
                 cfg,
                 esc(&out.bytes),
                 expected_text(&spec, &cfg),
@@ -1435,7 +1462,7 @@ pub fn replay(w: &Value) -> Result<(bool, String), String> {
         Some("pair") => {
             let a: Spec = serde_json::from_value(w["a"].clone()).map_err(|e| format!("a: {e}"))?;
             let b: Spec = serde_json::from_value(w["b"].clone()).map_err(|e| format!("b: {e}"))?;
-            let head = format!("first    {:?}\nsecond   {:?}\nconfig   {:?}", a.command(), b.command(), cfg);
+            let head = format!("first    {:?}\nsecond   {:?}\nconfig   {:?}", shown(&a), shown(&b), cfg);
             Ok(match eval_pair(&a, &b, &cfg) {
                 Ok(()) => (false, format!("{head}\nstream parses to the concatenation of both operation lists")),
                 Err((culprit, kind, detail)) => (true, format!("{head}\n[{culprit}: {kind}] {detail}")),
@@ -1452,7 +1479,7 @@ pub fn replay(w: &Value) -> Result<(bool, String), String> {
             let _ = catch(|| enc.encode(&mut FailAfter { left: k }, cmd));
             let mut after = vec![];
             let res = encode_with(&mut enc, &second, &mut after);
-            let head = format!("{:?} fails in the writer after {k} bytes; then {:?} on the same encoder", first.command(), second.command());
+            let head = format!("{:?} fails in the writer after {k} bytes; then {:?} on the same encoder", shown(&first), shown(&second));
             Ok(if res.is_err() || after != fresh {
                 (true, format!("{head}\nemitted {:?}\na fresh encoder emits {:?}", esc(&after), esc(&fresh)))
             } else {
